@@ -25,6 +25,13 @@
 //! its UTF-8 bytes (what the crate gets):
 //! 20 new_s slot max_map_size | 21 update_s slot id weight hash bytes... | 22 query_s slot id hash bytes... | 23 stats_s slot
 //! 24 merge_s dst src | 25 frequent_s slot error_type mode threshold (rows sorted by id)
+//! 31 ser_s slot -> bytes | 32 parse_s slot bytes... -> [1] | ERR | ALLOC (slot cleared first, allocation accounted)
+//! 33 rt_s slot -> [1] when deserialize(serialize(s)) answers every accessor / every row / epsilon exactly as s does and
+//!    re-serializes to the same set of (item, count) pairs with the same header; [0, which] otherwise; ERR when rejected
+//! 34 use_s slot -> [1] after estimates, updates (through purges), a merge with a clone and a serialize of the sketch
+//!    (31..34 are judged on the crate's observations only: the Coq codec model is for i64 items)
+//! u64 items: ops 40..52 = ops 0..12 on `FrequentItemsSketch<u64>` in a third set of slots; an item is given as the i64 with
+//!    the same bits (same hash, same image bytes), so the i64 model answers them
 //! An operation addressed to a slot that holds no sketch (e.g. after a rejected image) is a no-op observed
 //! as EMPTY = [-996] (Base/Oracles.v).
 use datasketches::frequencies::{ErrorType, FrequentItemsSketch};
@@ -35,6 +42,7 @@ const EMPTY: i128 = -996;
 
 type Sk = FrequentItemsSketch<i64>;
 type Ss = FrequentItemsSketch<String>;
+type Su = FrequentItemsSketch<u64>;
 
 /// the image decoded into a layout-independent observation (pairs sorted by item)
 fn canon(b: &[u8]) -> Ob {
@@ -59,6 +67,7 @@ fn canon(b: &[u8]) -> Ob {
 pub struct Fam {
     slots: Vec<Option<Sk>>,
     sslots: Vec<Option<Ss>>,
+    uslots: Vec<Option<Su>>,
     ids: std::collections::HashMap<String, i64>,
 }
 
@@ -78,7 +87,7 @@ impl Fam {
 
 impl Family for Fam {
     fn new(_cfg: &[i128]) -> Self {
-        Fam { slots: vec![None; 8], sslots: vec![None; 8], ids: std::collections::HashMap::new() }
+        Fam { slots: vec![None; 8], sslots: vec![None; 8], uslots: vec![None; 8], ids: std::collections::HashMap::new() }
     }
 
     fn step(&mut self, code: i64, a: &[i128]) -> Ob {
@@ -92,14 +101,103 @@ impl Family for Fam {
             return vec![EMPTY];
         }
         let sneeds = match code {
-            21 | 22 | 23 | 25 => vec![a[0]],
+            21 | 22 | 23 | 25 | 31 | 33 | 34 => vec![a[0]],
             24 => vec![a[0], a[1]],
             _ => vec![],
         };
         if sneeds.iter().any(|i| self.sslots[*i as usize].is_none()) {
             return vec![EMPTY];
         }
+        if (40..=52).contains(&code) {
+            return self.step_u64(code - 40, a);
+        }
         match code {
+            31 => self.sslots[a[0] as usize].as_ref().unwrap().serialize().iter().map(|b| *b as i128).collect(),
+            32 => {
+                let bytes: Vec<u8> = a[1..].iter().map(|b| *b as u8).collect();
+                self.sslots[a[0] as usize] = None;
+                let base = crate::alloc_mark();
+                let r = Ss::deserialize(&bytes);
+                if crate::alloc_peak_since(base) > 64 * bytes.len() + (1 << 20) {
+                    return vec![crate::ALLOC];
+                }
+                match r {
+                    Ok(s) => {
+                        self.sslots[a[0] as usize] = Some(s);
+                        vec![1]
+                    }
+                    Err(_) => vec![ERR],
+                }
+            }
+            33 => {
+                let s = self.sslots[a[0] as usize].as_ref().unwrap();
+                let bytes = s.serialize();
+                let d = match Ss::deserialize(&bytes) {
+                    Ok(d) => d,
+                    Err(_) => return vec![ERR],
+                };
+                let stats = |x: &Ss| {
+                    (x.maximum_error(), x.total_weight(), x.num_active_items(), x.is_empty(), x.lg_cur_map_size(),
+                     x.current_map_capacity(), x.lg_max_map_size(), x.maximum_map_capacity(), x.epsilon().to_bits())
+                };
+                if stats(s) != stats(&d) {
+                    return vec![0, 1];
+                }
+                let rows = |x: &Ss, et| {
+                    let mut v: Vec<(String, u64, u64, u64)> = x
+                        .frequent_items_with_threshold(et, 0)
+                        .iter()
+                        .map(|r| (r.item().clone(), r.estimate(), r.upper_bound(), r.lower_bound()))
+                        .collect();
+                    v.sort();
+                    v
+                };
+                let all = rows(s, ErrorType::NoFalseNegatives);
+                if all != rows(&d, ErrorType::NoFalseNegatives) || rows(s, ErrorType::NoFalsePositives) != rows(&d, ErrorType::NoFalsePositives) {
+                    return vec![0, 2];
+                }
+                for (item, e, u, l) in &all {
+                    if (d.estimate(item), d.upper_bound(item), d.lower_bound(item)) != (*e, *u, *l) {
+                        return vec![0, 3];
+                    }
+                }
+                let probe = "never seen".to_string();
+                if (s.estimate(&probe), s.upper_bound(&probe), s.lower_bound(&probe)) != (d.estimate(&probe), d.upper_bound(&probe), d.lower_bound(&probe)) {
+                    return vec![0, 4];
+                }
+                // the image of the copy: same length, same header, same pairs (the slot order is not canonical)
+                let b2 = d.serialize();
+                if b2.len() != bytes.len() || b2[..bytes.len().min(32)] != bytes[..bytes.len().min(32)] {
+                    return vec![0, 5];
+                }
+                match Ss::deserialize(&b2) {
+                    Ok(d2) if rows(&d2, ErrorType::NoFalseNegatives) == all => vec![1],
+                    _ => vec![0, 6],
+                }
+            }
+            34 => {
+                let s = self.sslots[a[0] as usize].as_mut().unwrap();
+                let room = s.total_weight() < u64::MAX / 4;
+                let mut acc = 0u64;
+                for i in 0..40u32 {
+                    let item = format!("use-{}-{}", i, "x".repeat((i % 19) as usize));
+                    acc = acc.wrapping_add(s.estimate(&item)).wrapping_add(s.upper_bound(&item));
+                    if room {
+                        s.update_with_count(item, 1 + (i as u64 % 3));
+                    }
+                }
+                if room {
+                    let other = s.clone();
+                    s.merge(&other);
+                }
+                let n = s.frequent_items(ErrorType::NoFalseNegatives).len() + s.frequent_items(ErrorType::NoFalsePositives).len();
+                let bytes = s.serialize();
+                let _ = (acc, n);
+                match Ss::deserialize(&bytes) {
+                    Ok(_) => vec![1],
+                    Err(_) => vec![0],
+                }
+            }
             0 => {
                 self.slots[a[0] as usize] = Some(Sk::new(a[1] as usize));
                 vec![]
@@ -252,6 +350,104 @@ impl Family for Fam {
                     Err(_) => vec![ERR],
                 }
             }
+            _ => vec![PANIC],
+        }
+    }
+}
+
+impl Fam {
+    /// ops 0..12 on `FrequentItemsSketch<u64>`; items cross the case format as the i64 with the same bits
+    fn step_u64(&mut self, code: i64, a: &[i128]) -> Ob {
+        let needs = match code {
+            1 | 2 | 3 | 5 | 6 | 7 | 9 | 10 | 12 => vec![a[0]],
+            4 => vec![a[0], a[1]],
+            _ => vec![],
+        };
+        if needs.iter().any(|i| self.uslots[*i as usize].is_none()) {
+            return vec![EMPTY];
+        }
+        let item = |v: i128| v as i64 as u64;
+        match code {
+            0 => {
+                self.uslots[a[0] as usize] = Some(Su::new(a[1] as usize));
+                vec![]
+            }
+            1 => {
+                self.uslots[a[0] as usize].as_mut().unwrap().update_with_count(item(a[1]), a[2] as u64);
+                vec![]
+            }
+            2 => {
+                let s = self.uslots[a[0] as usize].as_ref().unwrap();
+                let x = item(a[1]);
+                vec![s.estimate(&x) as i128, s.lower_bound(&x) as i128, s.upper_bound(&x) as i128, s.maximum_error() as i128]
+            }
+            3 => {
+                let s = self.uslots[a[0] as usize].as_ref().unwrap();
+                vec![
+                    s.maximum_error() as i128,
+                    s.total_weight() as i128,
+                    s.num_active_items() as i128,
+                    s.is_empty() as i128,
+                    s.lg_cur_map_size() as i128,
+                    s.current_map_capacity() as i128,
+                    s.lg_max_map_size() as i128,
+                    s.maximum_map_capacity() as i128,
+                ]
+            }
+            4 => {
+                let other = self.uslots[a[1] as usize].clone().unwrap();
+                self.uslots[a[0] as usize].as_mut().unwrap().merge(&other);
+                vec![]
+            }
+            5 => {
+                let s = self.uslots[a[0] as usize].as_ref().unwrap();
+                let et = if a[1] == 0 { ErrorType::NoFalseNegatives } else { ErrorType::NoFalsePositives };
+                let rows = if a[2] == 0 { s.frequent_items(et) } else { s.frequent_items_with_threshold(et, a[3] as u64) };
+                let mut out: Vec<(i64, u64, u64, u64)> =
+                    rows.iter().map(|r| (*r.item() as i64, r.estimate(), r.upper_bound(), r.lower_bound())).collect();
+                out.sort();
+                let mut ob = vec![s.maximum_error() as i128];
+                for (x, e, u, l) in out {
+                    ob.extend([x as i128, e as i128, u as i128, l as i128]);
+                }
+                ob
+            }
+            6 => self.uslots[a[0] as usize].as_ref().unwrap().serialize().iter().map(|b| *b as i128).collect(),
+            7 => {
+                let bytes = self.uslots[a[0] as usize].as_ref().unwrap().serialize();
+                match Su::deserialize(&bytes) {
+                    Ok(s) => {
+                        self.uslots[a[1] as usize] = Some(s);
+                        vec![1]
+                    }
+                    Err(_) => vec![ERR],
+                }
+            }
+            8 | 11 => {
+                let k = a[1] as usize;
+                let bytes: Vec<u8> = a[2 + k..].iter().map(|b| *b as u8).collect();
+                if code == 11 {
+                    self.uslots[a[0] as usize] = None;
+                }
+                let base = crate::alloc_mark();
+                let r = Su::deserialize(&bytes);
+                if code == 11 && crate::alloc_peak_since(base) > 64 * bytes.len() + (1 << 20) {
+                    return vec![crate::ALLOC];
+                }
+                match r {
+                    Ok(s) => {
+                        self.uslots[a[0] as usize] = Some(s);
+                        vec![1]
+                    }
+                    Err(_) => vec![ERR],
+                }
+            }
+            9 => {
+                self.uslots[a[0] as usize].as_mut().unwrap().reset();
+                vec![]
+            }
+            10 => vec![fbits(self.uslots[a[0] as usize].as_ref().unwrap().epsilon())],
+            12 => canon(&self.uslots[a[0] as usize].as_ref().unwrap().serialize()),
             _ => vec![PANIC],
         }
     }
